@@ -13,6 +13,7 @@
 #include "concurrent_queue.h"
 #include "cpu.h"
 #include "epoch.h"
+#include "verif_hook.h"
 
 namespace yakushima {
 
@@ -21,6 +22,7 @@ public:
     void fin() {
         // for cache
         if (std::get<gc_target_index>(cache_node_container_) != nullptr) {
+            YK_VP(k_reclaim_node, std::get<gc_target_index>(cache_node_container_), 0, 0);
             delete std::get<gc_target_index>(cache_node_container_); // NOLINT
             std::get<gc_target_index>(cache_node_container_) = nullptr;
         }
@@ -28,11 +30,13 @@ public:
         while (!node_container_.empty()) {
             std::tuple<Epoch, base_node*> elem;
             if (!node_container_.try_pop(elem)) { continue; }
+            YK_VP(k_reclaim_node, std::get<gc_target_index>(elem), 0, 0);
             delete std::get<gc_target_index>(elem); // NOLINT
         }
 
         // for cache
         if (std::get<gc_target_index>(cache_value_container_) != nullptr) {
+            YK_VP(k_reclaim_value, std::get<gc_target_index>(cache_value_container_), 0, 0);
             ::operator delete(
                     std::get<gc_target_index>(cache_value_container_),
                     std::get<gc_target_size_index>(cache_value_container_),
@@ -43,6 +47,7 @@ public:
         while (!value_container_.empty()) {
             std::tuple<Epoch, void*, std::size_t, std::align_val_t> elem;
             if (!value_container_.try_pop(elem)) { continue; }
+            YK_VP(k_reclaim_value, std::get<gc_target_index>(elem), 0, 0);
             ::operator delete(std::get<gc_target_index>(elem),
                               std::get<gc_target_size_index>(elem),
                               std::get<gc_target_align_index>(elem));
@@ -62,6 +67,7 @@ public:
             if (std::get<gc_epoch_index>(cache_node_container_) >= gc_epoch) {
                 return;
             }
+            YK_VP(k_reclaim_node, std::get<gc_target_index>(cache_node_container_), 0, 0);
             delete std::get<gc_target_index>(cache_node_container_); // NOLINT
             std::get<gc_target_index>(cache_node_container_) = nullptr;
         }
@@ -74,6 +80,7 @@ public:
                 cache_node_container_ = elem;
                 return;
             }
+            YK_VP(k_reclaim_node, std::get<gc_target_index>(elem), 0, 0);
             delete std::get<gc_target_index>(elem); // NOLINT
         }
     }
@@ -85,6 +92,7 @@ public:
             if (std::get<gc_epoch_index>(cache_value_container_) >= gc_epoch) {
                 return;
             }
+            YK_VP(k_reclaim_value, std::get<gc_target_index>(cache_value_container_), 0, 0);
             ::operator delete(
                     std::get<gc_target_index>(cache_value_container_),
                     std::get<gc_target_size_index>(cache_value_container_),
@@ -99,6 +107,7 @@ public:
                 cache_value_container_ = elem;
                 return;
             }
+            YK_VP(k_reclaim_value, std::get<gc_target_index>(elem), 0, 0);
             ::operator delete(std::get<gc_target_index>(elem),
                               std::get<gc_target_size_index>(elem),
                               std::get<gc_target_align_index>(elem));
@@ -106,20 +115,24 @@ public:
     }
 
     static Epoch get_gc_epoch() {
+        YK_VP(k_gc_load, nullptr, 0, 0);
         return gc_epoch_.load(std::memory_order_acquire);
     }
 
     void push_node_container(std::tuple<Epoch, base_node*> elem) {
         node_container_.push(elem);
+        YK_VP(k_retire_node, std::get<gc_target_index>(elem), std::get<gc_epoch_index>(elem), 0);
     }
 
     void push_value_container(
             std::tuple<Epoch, void*, std::size_t, std::align_val_t> elem) {
         value_container_.push(elem);
+        YK_VP(k_retire_value, std::get<gc_target_index>(elem), std::get<gc_epoch_index>(elem), 0);
     }
 
     static void set_gc_epoch(const Epoch epoch) {
         gc_epoch_.store(epoch, std::memory_order_release);
+        YK_VP(k_gc_store, nullptr, epoch, 0);
     }
 
 private:
